@@ -726,7 +726,10 @@ func (s *Session) enterBlock(fr *Frame, b *ssa.BasicBlock) *State {
 	}
 	for _, inv := range invs {
 		f := s.evalBoolClause(fr, inv, st, b)
+		so := s.curOrigin
+		s.curOrigin = fmt.Sprintf("inv#%d", ord)
 		s.assume(Imp(st.Reach, f))
+		s.curOrigin = so
 	}
 	if fr.contract != nil && fr.top {
 		for _, as := range fr.contract.LoopAssume[ord] {
@@ -849,7 +852,7 @@ func (s *Session) setEdge(fr *Frame, from, to *ssa.BasicBlock, cond T, st *State
 					subs := splitClause(inv)
 					for _, sub := range subs {
 						f := s.evalGoalClauseAt(fr, sub, st, to, -1)
-						s.addObl(&Obligation{Name: fmt.Sprintf("%s/inv#%d.%s:step", fr.oblPfx, ord, clauseNameSplit(inv, i, sub, len(subs))), Kind: "inv:step", Func: fr.oblPfx, Src: sub.Src, Guard: cond, Formula: f})
+						s.addObl(&Obligation{Name: fmt.Sprintf("%s/inv#%d.%s:step", fr.oblPfx, ord, clauseNameSplit(inv, i, sub, len(subs))), Kind: "inv:step", Func: fr.oblPfx, Src: sub.Src, Guard: cond, Formula: f, Using: inv.Using})
 					}
 				}
 				for ph, v := range saved {
